@@ -61,6 +61,6 @@ HeapView(heap, heapPtr, freePtr, roots, hi) ==
         ELSE IF hi > F THEN "memory beyond the allocation frontier was written"
         ELSE ""
   IN [why |-> why, leak |-> (why = "a block below the allocation frontier is neither reachable nor on a free list (leak)"), F |-> F, inuse |-> Cardinality(InUse), reach |-> Cardinality(Reach),
-      nlinear |-> Cardinality(Linear), ndeferred |-> Cardinality(Deferred), linearSet |-> Linear,
+      nlinear |-> Cardinality(Linear), ndeferred |-> Cardinality(Deferred), linearSet |-> Linear, deferredSet |-> Deferred,
       shared |-> Cardinality({b \in InUse : Hdr(heap, b).t = "int" /\ Hdr(heap, b) # ZeroV})]
 =============================================================================
